@@ -29,6 +29,7 @@ type Opts struct {
 	ShareSubtrees   bool // reuse generated subtrees (rendered as YAML anchor + aliases)
 	BothCommandKeys bool // now and then a command step carries both `command` and `commands`
 	LongPipelines   bool // now and then a pipeline of 31..130 small steps
+	PlainKeys       bool // now and then a free-form mapping has a key written as a plain number or boolean
 	DeepNesting     bool // now and then a value nested 12..65 levels deep under an unknown key of a step
 	BadStepEntries  bool // now and then an entry of the top-level step list is not a step at all
 	TwoKindSteps    bool // now and then a step mapping carries keys of two step kinds
@@ -167,6 +168,17 @@ func (o *Opts) AnyMap(pos string, depth, n int) *Node {
 			k += "_"
 		}
 		m.Set(k, o.AnyValue(pos, depth))
+	}
+	if o.PlainKeys && o.T.Draw(10, pos+":plainkey") == 9 {
+		// a key written as a plain number or boolean (YAML only), after a STRING key with the same spelling
+		pr := [][2]string{{"31", "0x1f"}, {"15", "0o17"}, {"1000", "1_000"}, {"1.000000e+03", "1e3"}, {"5.000000e-01", ".5"}, {"true", "true"}, {"7", "+7"}, {"0", "-0"}}[o.T.Draw(8, pos+":plainkeyv")]
+		if !m.Has(pr[0]) && !m.Has(pr[1]) {
+			if o.T.Draw(2, pos+":plainkey-twin") == 1 && pr[0] != pr[1] {
+				m.Set(pr[1], Str("the string key spelled like it"))
+			}
+			m.Set(pr[0], o.AnyValue(pos, depth))
+			m.KeySpell = map[string]string{pr[0]: pr[1]}
+		}
 	}
 	return m
 }
